@@ -757,6 +757,31 @@ def arg_probes(ford, d):
     return out
 
 
+# the statement that opens a function: the real FUNCTION_RE on fixed statements (both orders of the suffix items, every
+# prefix form, keyword-like names, statements of other kinds, malformed ones)
+FUNC_PROBES = [
+    "function f()", "function f", "function f(x)", "FUNCTION F ( X , Y )", "function f(x) result(r)", "function f(x) RESULT ( r )",
+    "function f(x) bind(c)", "function f(x) bind(c, name=\"0\")", "function f(x) result(r) bind(c)", "function f(x) bind(c) result(r)",
+    "function f(x) result(r) bind(c, name=\"0\")", "function f(x) bind(c, name=\"0\") result(r)", "function f(x)bind(c)result(r)",
+    "function f(x)result(r)bind(c)", "pure function f(x) Bind ( C ) Result( r )", "integer function f(x)", "integer(8) pure function f(x) result(r)",
+    "recursive  function  f ( x )  result ( r )", "type(t) function f(a, b)", "function result(bind) result(function)",
+    "function bind(result) bind(c) result(bind_r)", "function f(x) result(r) result(q)", "function f(x) bind(c) bind(d)",
+    "function f(a(1))", "function f(x) result()", "function f(x) result(a b)", "function f(x) bind(c", "function", "function ", "functionf()",
+    "end function f", "integer :: function_x", "x = result(bind(3))", " function f()", "elemental function function(function)",
+    "module function f(x) result(res)", "function f(x) bind(c) result(r) ", "function f(x)  result( r )  bind( c )",
+]
+
+
+def func_probes(ford):
+    from ford.sourceform import FortranContainer
+
+    out = []
+    for s in FUNC_PROBES:
+        m = FortranContainer.FUNCTION_RE.match(s)
+        out.append((s, None if m is None else m.groupdict()))
+    return out
+
+
 # ---------------------------------------------------------------------------------------------------------
 # patterns
 # ---------------------------------------------------------------------------------------------------------
@@ -821,9 +846,10 @@ def translate():
         tp = type_probes(ford, d)
         en = entity_probes(ford, d)
         ar = arg_probes(ford, d)
+        fp = func_probes(ford)
     L = ["/- GENERATED by translate/c01.py from the working tree of FORD (structure by ast, objects / patterns / behaviour",
          "   by running the real code on fixed probes) - do not edit -/",
-         "import FordModel.Attribs", "import FordModel.TypeHead", "import FordModel.Entity",
+         "import FordModel.Attribs", "import FordModel.TypeHead", "import FordModel.Entity", "import FordModel.FuncHead",
          "namespace Ford.Generated.C01", "open Ford", "",
          "/-- (branch test, extra guard) of the cascade in FortranContainer.__init__, in source order; local variables",
          "    alpha-renamed in order of first use, one-line helpers inlined -/",
@@ -866,6 +892,10 @@ def translate():
     L += _items(["(%s, %s, %s, %s)" % (llist(a), llist(e), llist(ra, lambda x: (".declared ⟨%s, %s⟩" % (lc(x[1]), lc(x[2]))) if x[0] == "declared"
                                                             else ".implicit %s" % lc(x[1])),
                                        llist(rv, lambda x: "⟨%s, %s⟩" % (lc(x[0]), lc(x[1])))) for a, e, ra, rv in ar])
+    L += ["]", "", "/-- FortranContainer.FUNCTION_RE.match(<statement>): the five named groups -/",
+          "def funcProbes : List (Str × Option FuncHead.Groups) := ["]
+    L += _items(["(%s, %s)" % (lc(t), "none" if g is None else "some ⟨%s, %s, %s, %s, %s⟩" % (
+        lopt(g["attributes"]), lc(g["name"]), lopt(g["arguments"]), lopt(g["result"]), lopt(g["bindC"]))) for t, g in fp])
     L += ["]", "", "end Ford.Generated.C01", ""]
     common.write_if_changed(GENERATED, "\n".join(L))
     return casc, table, chc
